@@ -41,7 +41,8 @@ def generate(rng, tier):
     backend = 'simstream' if r < 0.5 else rng.choice(ALL_BACKENDS)
     short = rng.getrandbits(32) if (backend in ('simstream', 'simpath') and rng.random() < 0.6) else None
     case = {'spec': spec, 'backend': backend, 'short_seed': short, 'debug_log': rng.random() < 0.1,
-            'raw_ts': raw_ts, 'pathlib': rng.random() < 0.3, 'threads': None, 'rewrite': rng.random() < 0.06}
+            'raw_ts': raw_ts, 'pathlib': rng.random() < 0.3, 'threads': None, 'rewrite': rng.random() < 0.06,
+            'by_keyword': rng.random() < 0.15}
     if len(_w.data) < 3000 and rng.random() < 0.04:
         # two threads, each reading its own file with TdmsFile.read (a thread pool mapping TdmsFile.read over paths):
         # nothing is shared by the caller; the interleaving is decided by a seeded scheduler
@@ -125,7 +126,12 @@ def execute(case):
         st.put('w.tdms', w.data)
         src = st.source(case['backend'], 'w.tdms', as_pathlib=case.get('pathlib', False))
         try:
-            tf = lib.TdmsFile.read(src, raw_timestamps=case['raw_ts'])
+            if case.get('by_keyword'):
+                # the documented signature is read(file, raw_timestamps=False, memmap_dir=None): callers name the argument
+                res.probe('file-passed-by-keyword')
+                tf = lib.TdmsFile.read(file=src, raw_timestamps=case['raw_ts'])
+            else:
+                tf = lib.TdmsFile.read(src, raw_timestamps=case['raw_ts'])
         except Exception as exc:
             layouts = sorted(set((s.layout, idx['type']) for s in w.segs for (p, h, idx) in s.active if h))
             res.violations.append(V('C01.read-raises', '%s: %s' % (type(exc).__name__, exc),
